@@ -7,7 +7,7 @@ sid, tier = sys.argv[1], sys.argv[2]
 p = os.path.join(VERIF, "seeded", sid, "meta.json")
 m = json.load(open(p))
 for line in sys.stdin:
-    mo = re.match(r"SEED (\S+) (C\d\d) rc=(\d+) (\d+)s viol=(\d+) \| (.*)", line.strip())
+    mo = re.match(r"SEED (\S+) (C\d\d) rc=(\d+) (\d+)s viol=(\d+) \|\s?(.*)", line.strip())
     if not mo or mo.group(1) != sid: continue
     prop, rc, secs, viol, keys = mo.group(2), int(mo.group(3)), int(mo.group(4)), int(mo.group(5)), mo.group(6)
     name = prop if tier == "quick" else prop + "(" + tier + ")"
